@@ -235,6 +235,20 @@ fn main() {
                     }
                 }
             }
+            "emitnow" => {
+                // written by code that runs between two frames (or in a schedule outside Update): not through the Update system
+                let a = app.as_mut().unwrap();
+                let n: u32 = t[2].parse().unwrap();
+                match t[1] {
+                    "ce" => {
+                        a.world_mut().send_event(CE0(n));
+                    }
+                    _ => {
+                        a.world_mut().commands().client_trigger(CT(n));
+                        a.world_mut().flush();
+                    }
+                }
+            }
             "emit" => {
                 let a = app.as_mut().unwrap();
                 let op = match t[1] {
